@@ -85,7 +85,7 @@ theorem seqReplaceBytes_eq (p old new : List UInt8) :
 
 /-- a loop of the shape `for i, x := range xs { out[i] = g x }` entered at index `k` with
 `k + len(xs) = len(out)` fills the cells from `k` on -/
-theorem fillLoop_shape (loop : List Feature → Int → List Feature → Except GErr (List Feature)) (g : Feature → Feature)
+theorem fillFeatsLoop_shape (loop : List Feature → Int → List Feature → Except GErr (List Feature)) (g : Feature → Feature)
     (h0 : ∀ i out, loop [] i out = .ok out)
     (hs : ∀ x xs i out, loop (x :: xs) i out =
       match Gen.goSet out i (g x) with
@@ -103,7 +103,7 @@ theorem fillLoop_shape (loop : List Feature → Int → List Feature → Except 
     have e : ((k : Int) + 1) = ((k + 1 : Nat) : Int) := by omega
     rw [hs]
     simp only [goSet_nat out k _ hk]
-    rw [e, fillLoop_shape loop g h0 hs xs (k + 1) _ (by simp only [List.length_set, List.length_cons] at h ⊢; omega),
+    rw [e, fillFeatsLoop_shape loop g h0 hs xs (k + 1) _ (by simp only [List.length_set, List.length_cons] at h ⊢; omega),
       set_take_succ out k _ hk]
     simp
 
@@ -111,7 +111,7 @@ theorem fillLoop_shape (loop : List Feature → Int → List Feature → Except 
 theorem seqComplementLoop_eq (fs : List Feature) :
     Gen.seqComplementLoop fs 0 (List.replicate fs.length default) =
       .ok (fs.map fun f => { f with loc := f.loc.complement }) := by
-  have := fillLoop_shape Gen.seqComplementLoop (fun f : Feature => { f with loc := Gen.locComplement f.loc })
+  have := fillFeatsLoop_shape Gen.seqComplementLoop (fun f : Feature => { f with loc := Gen.locComplement f.loc })
     (fun _ _ => rfl) (fun _ _ _ _ => rfl) fs 0 (List.replicate fs.length default) (by simp)
   simp only [Int.cast_ofNat_Int, List.take_zero, List.nil_append, locComplement_eq] at this
   exact this
